@@ -67,7 +67,7 @@ func checkC20(c *Ctx, r *Report) {
 	ir := newInitReader(c)
 
 	r.Rule("bcd-plus-table", "BCD-plus nibbles 0..15 map to '0'..'9',' ','-','.',':',',','_'", 1)
-	if v, g := ir.GlobalInit("pkg/ipmi", "bcdPlusRunes"); g == nil {
+	if v, g := ir.globalByType("pkg/ipmi", "bcdPlusRunes", "[16]rune"); g == nil {
 		r.Lost("ipmi BCD-plus rune table")
 	} else {
 		var sb strings.Builder
@@ -82,7 +82,7 @@ func checkC20(c *Ctx, r *Report) {
 	}
 
 	r.Rule("decoder-table", "type/length encodings 1,2,3 select the BCD-plus, packed 6-bit and 8-bit Latin-1 decoders", 3)
-	if v, g := ir.GlobalInit("pkg/ipmi", "stringEncodingDecoders"); g == nil {
+	if v, g := ir.globalByType("pkg/ipmi", "stringEncodingDecoders", "map["+modPath+"/pkg/ipmi.StringEncoding]"+modPath+"/pkg/ipmi.StringDecoder"); g == nil {
 		r.Lost("ipmi string encoding decoder table")
 	} else {
 		got := map[int64]*ssa.Function{}
@@ -118,7 +118,7 @@ func checkC20(c *Ctx, r *Report) {
 	}
 
 	r.Rule("time-unit-table", "rolling-average time units 0,1,2,3 are 1, 60, 3600, 86400 seconds", 1)
-	if f := c.Func("pkg/dcmi", "secondsMultiplier"); f == nil {
+	if f := c.uniqueFuncBySig("pkg/dcmi", "secondsMultiplier", "func(uint8)(int)"); f == nil {
 		r.Lost("dcmi.secondsMultiplier")
 	} else {
 		r.Fn(c.FnName(f))
@@ -155,7 +155,7 @@ func checkC20(c *Ctx, r *Report) {
 	}
 
 	r.Rule("extension-parsers", "unsigned parser = zero-extension, two's-complement parser = sign-extension of the raw byte", 2)
-	if v, g := ir.GlobalInit("pkg/ipmi", "analogDataFormatParsers"); g == nil {
+	if v, g := ir.globalByType("pkg/ipmi", "analogDataFormatParsers", "map["+modPath+"/pkg/ipmi.AnalogDataFormat]"+modPath+"/pkg/ipmi.AnalogDataFormatParser"); g == nil {
 		r.Lost("ipmi analog parser table")
 	} else {
 		got := map[int64]string{}
@@ -193,16 +193,65 @@ func checkC20(c *Ctx, r *Report) {
 	checkLenflowFor(c, r, "string-decoders-in-bounds", []string{"FullSensorRecord"})
 
 	r.Rule("checksum-shape", "the IPMI checksum is the negation of the 8-bit sum of every byte of its argument", 1)
-	if f := c.Func("pkg/ipmi", "checksum"); f == nil {
-		r.Lost("ipmi.checksum")
-	} else {
+	// the checksum helper is whatever []byte→uint8 function the message layer calls
+	seen := map[*ssa.Function]bool{}
+	var sums []*ssa.Function
+	for _, mn := range []string{"SerializeTo", "DecodeFromBytes"} {
+		m := c.Method("pkg/ipmi", "Message", mn)
+		if m == nil {
+			continue
+		}
+		for _, f := range append([]*ssa.Function{m}, moduleCalleesOf(c, m, 2)...) {
+			allInstrs(f, false, func(in ssa.Instruction) {
+				if cc := asCall(in); cc != nil {
+					if cal := cc.StaticCallee(); cal != nil && cal.Blocks != nil && c.InModule(cal) && cal.Signature.Recv() == nil && normSig(cal.Signature) == "func([]uint8)(uint8)" && !seen[cal] {
+						seen[cal] = true
+						sums = append(sums, cal)
+					}
+				}
+			})
+		}
+	}
+	if len(sums) == 0 {
+		r.Lost("the message layer's checksum helper")
+	}
+	for _, f := range sums {
 		r.Fn(c.FnName(f))
-		r.Check(checksumShape(f), "ipmi.checksum|shape", f.Pos(), "-(Σ bytes) mod 256 over a full range loop", "checksum is not the negated 8-bit sum of all bytes of its argument")
+		r.Check(checksumShape(f), "ipmi message checksum|shape", f.Pos(), "-(Σ bytes) mod 256 over a full range loop", c.FnName(f)+" is not the negated 8-bit sum of all bytes of its argument")
 	}
 }
 
-// classifyStringDecoder recognises the three ID-string decoders by what they
-// index: the BCD-plus table, shifts by 6/4/2 with +0x20, or a plain string(b[:c]).
+// moduleCalleesOf lists the module functions statically reachable from fn
+// within depth calls.
+func moduleCalleesOf(c *Ctx, fn *ssa.Function, depth int) []*ssa.Function {
+	var out []*ssa.Function
+	seen := map[*ssa.Function]bool{fn: true}
+	var walk func(f *ssa.Function, d int)
+	walk = func(f *ssa.Function, d int) {
+		if d == 0 {
+			return
+		}
+		allInstrs(f, false, func(in ssa.Instruction) {
+			if cc := asCall(in); cc != nil {
+				if cal := cc.StaticCallee(); cal != nil && cal.Blocks != nil && c.InModule(cal) && !seen[cal] {
+					seen[cal] = true
+					out = append(out, cal)
+					walk(cal, d-1)
+				}
+			}
+		})
+	}
+	walk(fn, depth)
+	return out
+}
+
+// isRuneTable: a package-level [16]rune (the BCD-plus character table, whose
+// contents the bcd-plus-table rule checks).
+func isRuneTable(g *ssa.Global) bool {
+	pt, ok := g.Type().(*types.Pointer)
+	return ok && types.TypeString(pt.Elem(), nil) == "[16]rune"
+}
+
 func classifyStringDecoder(f *ssa.Function) string {
 	if f == nil || f.Blocks == nil {
 		return "?"
@@ -211,7 +260,7 @@ func classifyStringDecoder(f *ssa.Function) string {
 	allInstrs(f, false, func(in ssa.Instruction) {
 		switch x := in.(type) {
 		case *ssa.IndexAddr:
-			if g, ok := x.X.(*ssa.Global); ok && g.Name() == "bcdPlusRunes" {
+			if g, ok := x.X.(*ssa.Global); ok && isRuneTable(g) {
 				usesTable = true
 			}
 		case *ssa.BinOp:
